@@ -22,26 +22,199 @@ def pkey : Path → Nat
 
 theorem mask_eq : Gen.REMOVAL_MASK = 2 ^ 58 - 1 := by decide
 
+theorem hierarchyKey_world : hierarchyKey 0 = 2 ^ 57 + 1 := by decide
+
 theorem hierarchyKey_enc {p : Path} (hp : WF p) : hierarchyKey (enc p) = pkey p := by
-  unfold hierarchyKey
-  simp only [getResolution_enc_path hp]
   cases p with
-  | world => simp only [res, if_true, pkey, Gen.HILBERT_START_BIT]
+  | world => exact hierarchyKey_world
   | face f =>
     have hf : f < 12 := hp
+    unfold hierarchyKey
+    simp only [getResolution_enc_path hp]
     simp only [res, pkey, Gen.HILBERT_START_BIT]
-    rewrite [if_pos trivial, mask_eq, Nat.and_two_pow_sub_one_eq_mod, Nat.shiftRight_eq_div_pow,
-      Nat.shiftLeft_eq]
-    have e1 : enc (face f) = f * 2 ^ 58 + 2 ^ 57 := Eq.trans rfl rfl
-    rewrite [e1]
+    rewrite [if_neg (by omega), if_pos trivial, mask_eq, Nat.and_two_pow_sub_one_eq_mod, Nat.shiftRight_eq_div_pow,
+      Nat.shiftLeft_eq, A5.Order.enc_face]
     have e2 : (f * 2 ^ 58 + 2 ^ 57) / 2 ^ 58 = f := by omega
     have e3 : (f * 2 ^ 58 + 2 ^ 57) % 2 ^ 58 = 2 ^ 57 := by omega
-    have e4 : 5 * f * 2 ^ 58 % 2 ^ 64 = 5 * f * 2 ^ 58 := by omega
+    have e4 : 5 * f * 2 ^ 58 % 2 ^ 64 = 5 * f * 2 ^ 58 := Nat.mod_eq_of_lt (by omega)
     rewrite [e2, e3, e4]
-    exact or_marker _ 57 (by omega)
+    exact or_marker _ 57 (Nat.mul_mod_left _ _)
   | deep f k ds =>
+    unfold hierarchyKey
+    simp only [getResolution_enc_path hp]
     have : res (deep f k ds) = 1 + (ds.length : Int) := rfl
     rewrite [this, if_neg (by omega), if_neg (by omega)]
     rfl
+
+/-! ### elementary facts -/
+
+theorem below_world (x : Path) : Below world x := by
+  refine ⟨res_ge x, ?_⟩
+  have : res world = -1 := rfl
+  rw [this]
+  cases x with
+  | world => rfl
+  | face f => simp [ancestorAt]
+  | deep f k ds => simp [ancestorAt]
+
+theorem below_face_deep (f k : Nat) (ds : List Nat) : Below (face f) (deep f k ds) := by
+  refine ⟨by simp only [res]; omega, ?_⟩
+  simp [ancestorAt, res]
+
+/-- the id of a `deep` cell lies strictly inside the `2^58`-block named by its six leading bits -/
+theorem enc_deep_bounds {f k : Nat} {ds : List Nat} (hp : WF (deep f k ds)) :
+    (5 * f + k) * 2 ^ 58 + 2 ≤ enc (deep f k ds) ∧ enc (deep f k ds) + 2 ≤ (5 * f + k) * 2 ^ 58 + 2 ^ 58 := by
+  obtain ⟨_, _, hd, hl⟩ := hp
+  have h := A5.Order.tail_bounds 0 ds hd (by omega)
+  rw [Nat.zero_add, A5.Order.W_zero] at h
+  rw [A5.Order.enc_deep]
+  omega
+
+theorem enc_deep_even {f k : Nat} {ds : List Nat} (hp : WF (deep f k ds)) : enc (deep f k ds) % 2 = 0 := by
+  obtain ⟨_, _, hd, hl⟩ := hp
+  rw [A5.Order.enc_deep, A5.Order.W_succ _ hl, Nat.mul_left_comm]
+  by_cases h0 : ds.length = 0
+  · rw [h0, A5.Order.mark_zero]; omega
+  · rw [A5.Order.mark_pos_eq _ (by omega) hl]; omega
+
+theorem pkey_deep (f k : Nat) (ds : List Nat) : pkey (deep f k ds) = enc (deep f k ds) := rfl
+theorem pkey_face (f : Nat) : pkey (face f) = 5 * f * 2 ^ 58 + 2 ^ 57 := rfl
+theorem pkey_world : pkey world = 2 ^ 57 + 1 := rfl
+
+/-- the key of a base cell is not the id of a `deep` cell -/
+theorem face_key_ne_deep (f' : Nat) {f k : Nat} {ds : List Nat} (hp : WF (deep f k ds)) :
+    5 * f' * 2 ^ 58 + 2 ^ 57 ≠ enc (deep f k ds) := by
+  intro e
+  by_cases h0 : ds.length = 0
+  · have : ds = [] := List.eq_nil_of_length_eq_zero h0
+    subst this
+    rw [A5.Order.enc_quintant] at e
+    omega
+  · have h1 := A5.Order.lo_le_enc hp (by simp only [res]; omega)
+    rw [← e] at h1
+    have := A5.Order.face_not_in_block f k ds hp (by omega) (5 * f')
+    rw [A5.Order.enc_face] at this
+    exact this h1
+
+/-! ### K1: the key is injective -/
+
+theorem pkey_inj {p q : Path} (hp : WF p) (hq : WF q) (h : pkey p = pkey q) : p = q := by
+  cases p with
+  | world =>
+    cases q with
+    | world => rfl
+    | face g => rw [pkey_world, pkey_face] at h; omega
+    | deep g j es => rw [pkey_world, pkey_deep] at h; have := enc_deep_even hq; omega
+  | face f =>
+    cases q with
+    | world => rw [pkey_world, pkey_face] at h; omega
+    | face g => rw [pkey_face, pkey_face] at h; have : f = g := by omega
+                rw [this]
+    | deep g j es => rw [pkey_face, pkey_deep] at h; exact absurd h (face_key_ne_deep f hq)
+  | deep f k ds =>
+    cases q with
+    | world => rw [pkey_world, pkey_deep] at h; have := enc_deep_even hp; omega
+    | face g => rw [pkey_face, pkey_deep] at h; exact absurd h.symm (face_key_ne_deep g hp)
+    | deep g j es => exact enc_injective hp hq h
+
+/-! ### K2: children in increasing key order -/
+
+theorem pkey_child_lt {P : Path} (hP : WF P) (hr : res P ≤ 28) {i j : Nat} (hij : i < j) :
+    pkey (child P i) < pkey (child P j) := by
+  cases P with
+  | world => show pkey (face i) < pkey (face j); rw [pkey_face, pkey_face]; omega
+  | face f =>
+    show pkey (deep f i []) < pkey (deep f j [])
+    rw [pkey_deep, pkey_deep, A5.Order.enc_quintant, A5.Order.enc_quintant]; omega
+  | deep f k ds =>
+    obtain ⟨_, _, _, hl⟩ := hP
+    show pkey (deep f k (ds ++ [i])) < pkey (deep f k (ds ++ [j]))
+    rw [pkey_deep, pkey_deep]
+    have h1 := A5.Order.enc_child_deep f k ds i hl
+    have h2 := A5.Order.enc_child_deep f k ds j hl
+    simp only [child] at h1 h2
+    rw [h1, h2]
+    have := Nat.mul_lt_mul_of_lt_of_le hij (Nat.le_refl (W (ds.length + 1))) (A5.Order.W_pos _)
+    omega
+
+/-! ### K3: every cell lies strictly between its first and its last child -/
+
+theorem pkey_parent_between {P : Path} (hP : WF P) (hr : res P ≤ 28) :
+    pkey (child P 0) < pkey P ∧ pkey P < pkey (child P (fan (res P) - 1)) := by
+  cases P with
+  | world =>
+    rw [A5.Order.fan_world]
+    show pkey (face 0) < pkey world ∧ pkey world < pkey (face (12 - 1))
+    rw [pkey_face, pkey_face, pkey_world]; omega
+  | face f =>
+    rw [A5.Order.fan_face]
+    show pkey (deep f 0 []) < pkey (face f) ∧ pkey (face f) < pkey (deep f (5 - 1) [])
+    rw [pkey_deep, pkey_deep, A5.Order.enc_quintant, A5.Order.enc_quintant, pkey_face]; omega
+  | deep f k ds =>
+    rw [A5.Order.fan_deep]
+    have := A5.Order.parent_between_children (deep f k ds) hP (by simp only [res]; omega) hr
+    exact this
+
+/-! ### K4: what lies between the first and the last child -/
+
+theorem comparable_of_pkey_between {P x : Path} (hP : WF P) (hr : res P ≤ 28) (hx : WF x)
+    (h1 : pkey (child P 0) < pkey x) (h2 : pkey x < pkey (child P (fan (res P) - 1))) :
+    Below P x ∨ Below x P := by
+  cases P with
+  | world => exact Or.inl (below_world x)
+  | face f =>
+    rw [A5.Order.fan_face] at h2
+    have e1 : pkey (child (face f) 0) = (5 * f + 0) * 2 ^ 58 + 2 ^ 56 := A5.Order.enc_quintant f 0
+    have e2 : pkey (child (face f) (5 - 1)) = (5 * f + (5 - 1)) * 2 ^ 58 + 2 ^ 56 := A5.Order.enc_quintant f _
+    rw [e1] at h1; rw [e2] at h2
+    cases x with
+    | world => exact Or.inr (below_world _)
+    | face g =>
+      rw [pkey_face] at h1 h2
+      have : g = f := by omega
+      rw [this]; exact Or.inl (below_refl _)
+    | deep g j es =>
+      rw [pkey_deep] at h1 h2
+      have hb := enc_deep_bounds hx
+      obtain ⟨_, hj, _, _⟩ := hx
+      have : g = f := by omega
+      rw [this]; exact Or.inl (below_face_deep f j es)
+  | deep f k ds =>
+    rw [A5.Order.fan_deep] at h2
+    have hP' := hP
+    obtain ⟨hf, hk, hd, hl⟩ := hP
+    have hres : res (deep f k ds) = 1 + (ds.length : Int) := rfl
+    rw [hres] at hr
+    have e1 := A5.Order.enc_child_deep f k ds 0 hl
+    have e2 := A5.Order.enc_child_deep f k ds (4 - 1) hl
+    have k1 : pkey (child (deep f k ds) 0) = enc (child (deep f k ds) 0) := rfl
+    have k2 : pkey (child (deep f k ds) (4 - 1)) = enc (child (deep f k ds) (4 - 1)) := rfl
+    rw [k1, e1] at h1; rw [k2, e2] at h2
+    have hW := A5.Order.W_succ ds.length hl
+    have hm1 := A5.Order.two_mark_le_W (ds.length + 1) (by omega)
+    have hm2 := A5.Order.two_le_mark (ds.length + 1) (by omega)
+    cases x with
+    | world => exact Or.inr (below_world _)
+    | face g =>
+      rw [pkey_face] at h1 h2
+      by_cases h0 : ds.length = 0
+      · have : ds = [] := List.eq_nil_of_length_eq_zero h0
+        subst this
+        simp only [blockBase, A5.Order.value_nil, List.length_nil, Nat.zero_mul, Nat.add_zero] at h1 h2
+        simp only [List.length_nil, Nat.zero_add] at hm1 hm2 h1 h2
+        have w1 : W 1 = 2 ^ 56 := Eq.trans rfl rfl
+        have : g = f := by omega
+        rw [this]; exact Or.inr (below_face_deep f k [])
+      · exfalso
+        have := A5.Order.face_not_in_block f k ds hP' (by omega) (5 * g)
+        rw [A5.Order.enc_face] at this
+        apply this
+        simp only [lo, hi]
+        omega
+    | deep g j es =>
+      rw [pkey_deep] at h1 h2
+      have := A5.Order.ancestor_of_enc_bounds hP' hx (by rw [hres]; omega) (by simp only [res]; omega)
+        (by simp only [lo]; omega) (by simp only [hi]; omega)
+      exact Or.inl this
 
 end A5.CompactMax
